@@ -28,6 +28,12 @@ func main() {
 		cmdCheck(os.Args[2:])
 	case "list":
 		cmdList(os.Args[2:])
+	case "warm":
+		if _, err := loadProgram(envOr("YQ_REPO", "/repo"), envOr("VERIF_DIR", "/verif")); err != nil {
+			fmt.Fprintln(os.Stderr, "warm:", err)
+			os.Exit(1)
+		}
+		fmt.Println("loaded")
 	case "replay":
 		cmdReplay(os.Args[2:])
 	case "selftest":
